@@ -323,8 +323,8 @@ impl Gen {
             ["raw"] => {
                 let n = match self.rng.gen_range(0..4) { 0 => 8, 1 => self.rng.gen_range(0..8), _ => self.rng.gen_range(0..=12) };
                 let mut b: Vec<u8> = (0..n).map(|_| self.rng.next_u32() as u8).collect();
-                if n >= 8 && self.rng.gen_bool(0.5) {
-                    let p = self.patv() as u64;
+                if n >= 8 && self.rng.gen_bool(0.8) {
+                    let p = if self.rng.gen_bool(0.5) { self.zv() as u64 } else { self.patv() as u64 };
                     b[..8].copy_from_slice(&p.to_le_bytes());
                 }
                 (vec![], b)
